@@ -4,6 +4,7 @@
 package verifsim
 
 import (
+	_ "time/tzdata"
 	"crypto/sha256"
 	"encoding/hex"
 	"fmt"
